@@ -23,14 +23,16 @@ import (
 )
 
 const (
-	f1 = "% Invalid input"
-	f2 = "Error: bad"
+	// failure strings are plain text: these carry regular-expression metacharacters, and the clean output below
+	// would match them if they were ever read as patterns
+	f1 = "% Invalid input detected at '^' marker."
+	f2 = "[FAILED] (a|b)"
 	f3 = "never-occurs"
 	f4 = "ERR:"
 	f5 = "a failure string that is longer than the shortest outputs" // never occurs
 )
 
-var outs = []string{"all fine", "x " + f1 + " detected", "y " + f2 + " value", f2 + " and\n" + f1 + " both", f4 + " no"}
+var outs = []string{"all fine, E a", "x " + f1 + " detected", "y " + f2 + " value", f2 + " and\n" + f1 + " both", f4 + " no"}
 
 var drvLists = [][]string{nil, {f1}, {f1, f2}, {f5, f4, f1}}
 var opLists = [][]string{nil, {f2}, {f3}}
